@@ -250,6 +250,19 @@ func (g *UpdGen) Gen() []UAction {
 				wt = pick(g.r, []string{"N", "N", "L", "S"})
 			}
 			a.Val = g.val(2, wt)
+			if ok && len(p.tgt.Steps) == 0 && (cur.T == "N" || cur.T == "S") && len(cur.V) > 0 && g.r.Chance(12) {
+				// the value the attribute holds, written the same, with the other type: the number 7 becomes the string "7"
+				other := "S"
+				if cur.T == "S" {
+					other = "N"
+					for _, c := range cur.V {
+						if c < '0' || c > '9' {
+							other = "B"
+						}
+					}
+				}
+				a.Val = &UVal{K: "operand", O: &Operand{Kind: "val", Val: AV{T: other, V: cur.V}}}
+			}
 		case "add":
 			var arg AV
 			switch {
